@@ -4,18 +4,24 @@
 #  1. demo fails with the change, passes without it (in the agent's worktree)
 #  2. the existing test suite passes with the change (in the worktree)
 #  3. ./check <ids> quick on /repo with the patch applied (reverted afterwards)
+# SEED_PHASE=A runs only steps 1-2 (safe to run for several worktrees in parallel), SEED_PHASE=B only step 3.
 set -u
 ID="$1"; WT="${2:-/tmp/seed-$(echo $ID | tr A-Z a-z)}"; shift; [ $# -gt 0 ] && shift
 CHECKS="${*:-$ID}"
 D="$WT/seed_demo"
 [ -f "$D/patch.diff" ] || { echo "no patch.diff in $D"; exit 3; }
 RUN="$D/demo.sh"; [ -f "$RUN" ] || RUN="$D/run.sh"
+PHASE="${SEED_PHASE:-AB}"
+case "$PHASE" in *A*)
 echo "== [$ID] demo WITH change"
 ( cd "$WT" && git diff --quiet && git apply "$D/patch.diff" ) 2>/dev/null
 ( cd "$WT" && timeout 1800 sh "$RUN" >"$D/with.log" 2>&1 ); W=$?
 echo "   exit=$W"
 echo "== [$ID] existing tests WITH change"
-( cd "$WT" && timeout 3000 cargo test --workspace --offline --no-fail-fast >"$D/tests.log" 2>&1 ); T=$?
+# (own TMPDIR: the integration tests create /tmp/ripgrep-tests/<name>/<counter>, which collides between parallel runs)
+mkdir -p "/tmp/seedtmp-$ID"
+( cd "$WT" && TMPDIR="/tmp/seedtmp-$ID" timeout 3000 cargo test --workspace --offline --no-fail-fast >"$D/tests.log" 2>&1 ); T=$?
+rm -rf "/tmp/seedtmp-$ID"
 grep -E "^test result" "$D/tests.log" | awk '{p+=$4; f+=$6} END{print "   passed",p,"failed",f}'
 echo "   cargo test exit=$T"
 echo "== [$ID] demo WITHOUT change"
@@ -23,6 +29,10 @@ echo "== [$ID] demo WITHOUT change"
 ( cd "$WT" && timeout 1800 sh "$RUN" >"$D/without.log" 2>&1 ); O=$?
 echo "   exit=$O"
 ( cd "$WT" && git apply "$D/patch.diff" )
+echo "PHASEA $ID demo_with=$W demo_without=$O tests_exit=$T" | tee "$D/phaseA.txt"
+;; esac
+case "$PHASE" in *B*) ;; *) exit 0;; esac
+[ -f "$D/phaseA.txt" ] && cat "$D/phaseA.txt"
 echo "== [$ID] our checks on /repo + patch: $CHECKS"
 git -C /repo diff --quiet || { echo "/repo dirty; refusing"; exit 3; }
 trap 'git -C /repo checkout -- .; git -C /verif checkout -- evidence 2>/dev/null' EXIT INT TERM
@@ -32,4 +42,4 @@ for c in $CHECKS; do
   echo "   $c rc=$rc $((e-s))s $(echo "$out" | grep -a -E "^VIOLATION|^INCONCLUSIVE" | head -2 | cut -c1-200)"
   echo "$out" | grep -a -A6 "^--- failure" | head -12 | cut -c1-300 | sed 's/^/      /'
 done
-echo "SUMMARY $ID demo_with=$W demo_without=$O tests_exit=$T"
+echo "SUMMARY $ID demo_with=${W:-see-phaseA} demo_without=${O:-see-phaseA} tests_exit=${T:-see-phaseA}"
